@@ -679,19 +679,21 @@ func lexerStageA(c *Ctx, r *Rule, e *bndEngine) {
 					st = true
 				}
 			}
-			cs := strings.Join(condStrings(rt.Block()), " && ")
-			okZero = !st && strings.Contains(cs, "(l.pos>=l.len)=true")
+			isPos := func(v ssa.Value) bool { return strings.HasSuffix(pathOf(v), ".pos") }
+			isLen := func(v ssa.Value) bool { return strings.HasSuffix(pathOf(v), ".len") }
+			okZero = !st && cmpHolds(factsAt(rt.Block()), isPos, isLen, token.GEQ)
 			return
 		}
 		// returns the byte at pos and advances by one, under pos < len
-		cs := strings.Join(condStrings(rt.Block()), " && ")
+		isPos := func(v ssa.Value) bool { return strings.HasSuffix(pathOf(v), ".pos") }
+		isLen := func(v ssa.Value) bool { return strings.HasSuffix(pathOf(v), ".len") }
 		adv := false
 		for _, s := range fieldStores(nx, "Lexer", "pos") {
 			if s.Block() == rt.Block() && pathOf(s.Val) == "(l.pos+1)" {
 				adv = true
 			}
 		}
-		okByte = adv && strings.Contains(cs, "(l.pos>=l.len)=false") && strings.HasPrefix(pathOf(rt.Results[0]), "l.input[l.pos]")
+		okByte = adv && cmpHolds(factsAt(rt.Block()), isPos, isLen, token.LSS) && strings.HasPrefix(pathOf(rt.Results[0]), "l.input[l.pos]")
 	})
 	r.Check("lexer:next-shape", okZero && okByte, nx.Pos(), "next() returns 0 without moving when pos >= len, otherwise returns input[pos] and advances pos by exactly 1 (non-zero bytes always advance; input is NUL-free by the property's quantifier)")
 	// (2) state entry conditions at every site returning lexKey / lexValue
@@ -820,8 +822,15 @@ func lemmaWitnesses(c *Ctx, r *Rule, which string) {
 					if pred, isFM := firstMatchOf(rt.Results[0], rt.Block()); isFM && predicateRenders(pred, "strings.HasPrefix(p0,prefix)") {
 						return
 					}
-					cs := strings.Join(condStrings(rt.Block()), " && ")
-					if !(strings.Contains(cs, "strings.HasPrefix(") && strings.Contains(cs, ",prefix)=true")) {
+					okPrefix := false
+					for _, f := range factsAt(rt.Block()) {
+						if cl, isCl := f.V.(*ssa.Call); f.Op == token.ILLEGAL && f.True && isCl && isCall(cl, "strings.HasPrefix") {
+							if _, isParam := cl.Call.Args[1].(*ssa.Parameter); isParam {
+								okPrefix = true
+							}
+						}
+					}
+					if !okPrefix {
 						ok = false
 					}
 					// the returned string is the one tested
@@ -859,8 +868,7 @@ func readBatchContract(c *Ctx, r *Rule) {
 				}
 				if n == 1 {
 					// allowed only under len(ms) != 0
-					cs := strings.Join(condStrings(rt.Block()), " && ")
-					if !strings.Contains(cs, "(builtin len(ms)==0)=false") {
+					if !knownNonEmpty(factsAt(rt.Block()), func(v ssa.Value) bool { _, isP := v.(*ssa.Parameter); return isP }) {
 						ok = false
 					}
 					return
@@ -1034,12 +1042,24 @@ func c04(c *Ctx) {
 		okEmpty, okNil := false, false
 		eachInstr(eh, func(in ssa.Instruction) {
 			if rt, ok := in.(*ssa.Return); ok {
-				cs := strings.Join(condStrings(rt.Block()), " && ")
-				if _, isMk := rt.Results[0].(*ssa.MakeMap); isMk && strings.Contains(cs, "(bucketLimit==0)=true") {
+				fs := factsAt(rt.Block())
+				isLimit := func(v ssa.Value) bool {
+					p, ok := stripConv(v).(*ssa.Parameter)
+					return ok && p.Parent() == eh && isIntType(p.Type())
+				}
+				isZero := func(v ssa.Value) bool { n, ok := constInt(v); return ok && n == 0 }
+				if _, isMk := rt.Results[0].(*ssa.MakeMap); isMk && cmpHolds(fs, isLimit, isZero, token.EQL) {
 					okEmpty = true
 				}
-				if isNilConst(rt.Results[0]) && strings.Contains(cs, "retrieveThresholds") {
-					okNil = true
+				if isNilConst(rt.Results[0]) {
+					// nil exactly when the thresholds could not be retrieved (a fact about retrieveThresholds' result)
+					for _, f := range fs {
+						for _, v := range []ssa.Value{f.X, f.Y, f.V} {
+							if v != nil && strings.Contains(exprString(v, 0), "retrieveThresholds") {
+								okNil = true
+							}
+						}
+					}
 				}
 			}
 		})
